@@ -70,7 +70,6 @@ func c08GenInt(s Src) Val {
 	return iv(n)
 }
 
-
 func c08GenDec(s Src) Val {
 	var txt string
 	if s.Intn(3) == 0 {
